@@ -302,6 +302,21 @@ theorem hand_step {s s' : St} (hi : Inv s) (h : Hand s) (ev : Ev) (hs : step s e
       exact ⟨h.mem_lt, h.tbl_le, h.tbl_seq, h.imm_lt, h.ksorted, h.f_mem, h.inst_sealed, h.sealed_done,
         h.flushed_done, h.flushed_lt⟩
     · cases hs
+  | wFail seq =>
+    simp only [step] at hs
+    split at hs
+    · split at hs
+      · cases hs
+        have sub : ∀ w, w ∈ s.writers.filter (fun w => decide (w.seq ≠ seq)) → w ∈ s.writers :=
+          fun w hw => (List.mem_filter.mp hw).1
+        refine ⟨h.mem_lt, fun w hw => h.tbl_le w (sub w hw), fun w hw => h.tbl_seq w (sub w hw), h.imm_lt, ?_, ?_,
+          h.inst_sealed, ?_, ?_, h.flushed_lt⟩
+        · exact List.Pairwise.sublist (List.Sublist.map _ List.filter_sublist) h.ksorted
+        · intro m hm; exact h.f_mem m (List.mem_filter.mp hm).1
+        · intro hsl t ht w hw hwt; exact h.sealed_done hsl t ht w (sub w hw) hwt
+        · intro t ht w hw hwt; exact h.flushed_done t ht w (sub w hw) hwt
+      · cases hs
+    · cases hs
 
 theorem hand_run : ∀ (evs : List Ev) {s s' : St}, Inv s → Hand s → run s evs = some s' → Hand s'
   | [], s, s', _, h, hr => by simp only [run] at hr; cases hr; exact h
